@@ -216,6 +216,55 @@ func vC06MkOpt(kind int, r *rand.Rand) dns.EDNS0 {
 	}
 }
 
+// vC06RawOpt builds an option of a well-known code with a payload of boundary shape: lengths and
+// field values at and just past what the option's format allows.  Whether the packet is still
+// decodable is decided by the library's Unpack, not here.
+func vC06RawOpt(r *rand.Rand) dns.EDNS0 {
+	rb := func(n int) []byte {
+		b := make([]byte, n)
+		r.Read(b)
+		return b
+	}
+	pick := func(v ...int) int { return v[r.Intn(len(v))] }
+	switch r.Intn(8) {
+	case 0, 1, 2: // client subnet: family, source prefix, scope prefix, address
+		fam := pick(0, 1, 1, 1, 2, 2, 3)
+		max := 32
+		if fam == 2 {
+			max = 128
+		}
+		src := pick(0, 8, 24, max-1, max, max+1, 255)
+		scope := pick(0, 0, 24, max, max+1, 129, 255)
+		if fam == 0 {
+			src = pick(0, 0, 8)
+		}
+		alen := (src + 7) / 8
+		if alen > 16 {
+			alen = 16
+		}
+		alen += pick(0, 0, 0, 0, 1, -1)
+		if alen < 0 {
+			alen = 0
+		}
+		d := []byte{0, byte(fam), byte(src), byte(scope)}
+		a := rb(alen)
+		if alen > 0 && src%8 != 0 && r.Intn(2) == 0 {
+			a[alen-1] &= byte(0xFF << (8 - src%8)) // host bits cleared, as a careful client sends it
+		}
+		return &dns.EDNS0_LOCAL{Code: dns.EDNS0SUBNET, Data: append(d, a...)}
+	case 3:
+		return &dns.EDNS0_LOCAL{Code: dns.EDNS0COOKIE, Data: rb(pick(0, 1, 7, 8, 9, 16, 24, 32, 40, 41))}
+	case 4:
+		return &dns.EDNS0_LOCAL{Code: dns.EDNS0TCPKEEPALIVE, Data: rb(pick(0, 1, 2, 3))}
+	case 5:
+		return &dns.EDNS0_LOCAL{Code: dns.EDNS0EDE, Data: rb(pick(0, 1, 2, 12))}
+	case 6:
+		return &dns.EDNS0_LOCAL{Code: dns.EDNS0EXPIRE, Data: rb(pick(0, 3, 4, 5))}
+	default:
+		return &dns.EDNS0_LOCAL{Code: uint16(pick(1, 2, 5, 6, 7, 13, 14, 16)), Data: rb(pick(0, 1, 2, 4, 8, 18))}
+	}
+}
+
 // ---------------------------------------------------------------- scripted last handler
 
 type vC06Script struct {
@@ -663,6 +712,11 @@ func vC06GenQuery(r *rand.Rand) *vC06Q {
 	if r.Intn(30) == 0 {
 		q.Response = true
 	}
+	if r.Intn(16) == 0 {
+		// the whole (QR, opcode) table, jointly: responses with foreign opcodes included
+		q.Response = r.Intn(2) == 0
+		q.Opcode = []int{0, 1, 2, 3, 4, 5, 6, 9, 15}[r.Intn(9)]
+	}
 	name := vC06Names[r.Intn(len(vC06Names))]
 	switch r.Intn(12) {
 	case 0:
@@ -719,6 +773,16 @@ func vC06GenQuery(r *rand.Rand) *vC06Q {
 		}
 		if r.Intn(12) == 0 {
 			o.Option = append(o.Option, vC06MkOpt(11+r.Intn(3), r))
+		}
+		if r.Intn(4) == 0 {
+			raw := vC06RawOpt(r)
+			kept := o.Option[:0]
+			for _, e := range o.Option {
+				if e.Option() != raw.Option() {
+					kept = append(kept, e)
+				}
+			}
+			o.Option = append(kept, raw)
 		}
 		r.Shuffle(len(o.Option), func(i, j int) { o.Option[i], o.Option[j] = o.Option[j], o.Option[i] })
 		q.Extra = append(q.Extra, o)
@@ -908,6 +972,30 @@ func vC06Limit(q *dns.Msg) int {
 	return limit
 }
 
+// vC06Facts re-reads what the client sent from the library's decode of the packet (the selected
+// OPT is the last one): the generator's own bookkeeping does not survive raw-level payloads.
+func vC06Facts(gq *vC06Q, body *dns.Msg) {
+	gq.hasOpt, gq.ecsOpt, gq.cookie = false, nil, ""
+	if body == nil {
+		return
+	}
+	o := body.IsEdns0()
+	if o == nil {
+		return
+	}
+	gq.hasOpt = true
+	for _, e := range o.Option {
+		switch v := e.(type) {
+		case *dns.EDNS0_SUBNET:
+			gq.ecsOpt = v
+		case *dns.EDNS0_COOKIE:
+			if len(v.Cookie) >= 16 {
+				gq.cookie = v.Cookie[:16]
+			}
+		}
+	}
+}
+
 func vC06AbsHeader(raw []byte) string {
 	if len(raw) < 12 {
 		return "mk_T_Header 0 0 0 0 0 0"
@@ -945,6 +1033,11 @@ func TestVerifC06Server(t *testing.T) {
 		}
 		body := new(dns.Msg)
 		bodyOK := body.Unpack(raw) == nil
+		if bodyOK {
+			vC06Facts(gq, body)
+		} else {
+			vC06Facts(gq, nil)
+		}
 
 		// boundary tuning of the filler on UDP: aim the shaped length at limit-1 / limit / limit+1
 		if tr == vC06UDP && bodyOK && sc.write && r.Intn(3) == 0 {
